@@ -38,6 +38,13 @@ Inductive pcA :=
 | Aw_closetmp (t : nat)
 | Aw_utimes (t : nat)          (* os.Chtimes(tmp) *)
 | Aw_rename (t : nat)          (* v.os.Rename(tmp, path) *)
+(* only with the repair of fixes/F7.diff: WriteBlock takes the flock on the file it is about to replace *)
+| Aw_fopen (t : nat)           (* v.os.OpenFile(path) *)
+| Aw_fflock (t fd : nat)       (* v.lockfile(old) *)
+| Aw_fwait (t fd : nat)        (* blocked inside flock(2) *)
+| Aw_renameL (t fd : nat)      (* v.os.Rename(tmp, path), holding the flock *)
+| Aw_funlock (fd : nat)        (* deferred v.unlockfile(old) *)
+| Aw_fclose (fd : nat)         (* deferred old.Close() *)
 | A_done (r : ares).
 
 (* thread B = Trash *)
@@ -60,11 +67,12 @@ Record st := {
   lockB : option nat;
   is_put : bool;               (* A is a PUT (falls through to WriteBlock) or a TOUCH request *)
   remove : bool;               (* BlobTrashLifetime = 0: Trash unlinks instead of renaming *)
+  fix7 : bool;                 (* model of the code with fixes/F7.diff applied *)
   pa : pcA; pb : pcB }.
 
 Definition upd (s : st) (ino : list inode) (p : option nat) (tr gn : list nat) (la lb : option nat) (a : pcA) (b : pcB) : st :=
   {| inodes := ino; path := p; trash := tr; gone := gn; lockA := la; lockB := lb;
-     is_put := is_put s; remove := remove s; pa := a; pb := b |}.
+     is_put := is_put s; remove := remove s; fix7 := fix7 s; pa := a; pb := b |}.
 Definition setA (s : st) (a : pcA) : st := upd s (inodes s) (path s) (trash s) (gone s) (lockA s) (lockB s) a (pb s).
 Definition setB (s : st) (b : pcB) : st := upd s (inodes s) (path s) (trash s) (gone s) (lockA s) (lockB s) (pa s) b.
 
@@ -117,11 +125,29 @@ Definition stepA (s : st) : option st :=
       Some (upd s (set_nth (inodes s) t {| i_age := Fresh; i_cont := Good |}) (path s) (trash s) (gone s)
                 (lockA s) (lockB s) (Aw_closetmp t) (pb s))
   | Aw_closetmp t => Some (setA s (Aw_utimes t))
-  | Aw_utimes t => Some (upd s (freshen s t) (path s) (trash s) (gone s) (lockA s) (lockB s) (Aw_rename t) (pb s))
+  | Aw_utimes t => Some (upd s (freshen s t) (path s) (trash s) (gone s) (lockA s) (lockB s)
+                             (if fix7 s then Aw_fopen t else Aw_rename t) (pb s))
   | Aw_rename t =>                                    (* rename(2) replaces whatever is at the path, NO flock *)
       Some (upd s (inodes s) (Some t) (trash s)
                 (match path s with Some old => old :: gone s | None => gone s end)
                 (lockA s) (lockB s) (A_done AOk) (pb s))
+  | Aw_fopen t => Some (setA s (match path s with Some i => Aw_fflock t i | None => Aw_rename t end))
+  | Aw_fflock t fd =>
+      if opt_eqb (lockB s) fd then Some (setA s (Aw_fwait t fd))
+      else Some (upd s (inodes s) (path s) (trash s) (gone s) (Some fd) (lockB s) (Aw_renameL t fd) (pb s))
+  | Aw_fwait _ _ => None
+  | Aw_renameL t fd =>
+      Some (upd s (inodes s) (Some t) (trash s)
+                (match path s with Some old => old :: gone s | None => gone s end)
+                (lockA s) (lockB s) (Aw_funlock fd) (pb s))
+  | Aw_funlock fd =>
+      match pb s with
+      | B_wait fd' => if Nat.eqb fd fd'
+                      then Some (upd s (inodes s) (path s) (trash s) (gone s) None (Some fd') (Aw_fclose fd) (B_stat fd'))
+                      else Some (upd s (inodes s) (path s) (trash s) (gone s) None (lockB s) (Aw_fclose fd) (pb s))
+      | _ => Some (upd s (inodes s) (path s) (trash s) (gone s) None (lockB s) (Aw_fclose fd) (pb s))
+      end
+  | Aw_fclose _ => Some (setA s (A_done AOk))
   | A_done _ => None
   end.
 
@@ -151,6 +177,9 @@ Definition stepB (s : st) : option st :=
       match pa s with
       | At_wait fd' => if Nat.eqb fd fd'
                        then Some (upd s (inodes s) (path s) (trash s) (gone s) (Some fd') None (At_utimes fd') (B_close fd r))
+                       else Some (upd s (inodes s) (path s) (trash s) (gone s) (lockA s) None (pa s) (B_close fd r))
+      | Aw_fwait t fd' => if Nat.eqb fd fd'
+                       then Some (upd s (inodes s) (path s) (trash s) (gone s) (Some fd') None (Aw_renameL t fd') (B_close fd r))
                        else Some (upd s (inodes s) (path s) (trash s) (gone s) (lockA s) None (pa s) (B_close fd r))
       | _ => Some (upd s (inodes s) (path s) (trash s) (gone s) (lockA s) None (pa s) (B_close fd r))
       end
@@ -187,7 +216,7 @@ Fixpoint schedules (fuel : nat) (s : st) : list (list tid) :=
 
 (* ---- scenarios ---- *)
 Inductive prior := PAbsent | POldGood | POldCorrupt | PFreshGood.
-Definition init (p : prior) (put rm : bool) : st :=
+Definition init7 (p : prior) (put rm fx : bool) : st :=
   {| inodes := match p with
                | PAbsent => []
                | POldGood => [{| i_age := Old; i_cont := Good |}]
@@ -196,10 +225,11 @@ Definition init (p : prior) (put rm : bool) : st :=
                end;
      path := match p with PAbsent => None | _ => Some 0 end;
      trash := []; gone := []; lockA := None; lockB := None;
-     is_put := put; remove := rm;
+     is_put := put; remove := rm; fix7 := fx;
      pa := if put then Ac_stat else At_open; pb := B_open |}.
+Definition init (p : prior) (put rm : bool) : st := init7 p put rm false.
 
-Definition FUEL : nat := 24.   (* A has at most 3+5+6 steps, B at most 6 *)
+Definition FUEL : nat := 30.   (* A has at most 3+5+6 (+5 with the repair) steps, B at most 6 *)
 
 (* ---- observable outcome of a final state ---- *)
 Definition a_ok (s : st) : bool := match pa s with A_done AOk => true | _ => false end.
@@ -236,6 +266,12 @@ Definition labelA (p : pcA) : string :=
   | Aw_closetmp _ => "WriteBlock:tmpfile.Close"
   | Aw_utimes _ => "WriteBlock:os.Chtimes"
   | Aw_rename _ => "WriteBlock:v.os.Rename"
+  | Aw_fopen _ => "WriteBlock:v.os.OpenFile"
+  | Aw_fflock _ _ => "WriteBlock:v.lockfile"
+  | Aw_fwait _ _ => "(blocked in flock)"
+  | Aw_renameL _ _ => "WriteBlock:v.os.Rename"
+  | Aw_funlock _ => "WriteBlock:defer:v.unlockfile"
+  | Aw_fclose _ => "WriteBlock:defer:old.Close"
   | A_done _ => "(done)"
   end.
 Definition labelB (s : st) : string :=
@@ -252,5 +288,5 @@ Definition labelB (s : st) : string :=
 Definition label_t (t : tid) (s : st) : string := match t with TA => labelA (pa s) | TB => labelB s end.
 
 (* is the thread at a yield point or finished (i.e. not inside a blocking flock)? *)
-Definition parkedA (s : st) : bool := match pa s with At_wait _ => false | _ => true end.
+Definition parkedA (s : st) : bool := match pa s with At_wait _ | Aw_fwait _ _ => false | _ => true end.
 Definition parkedB (s : st) : bool := match pb s with B_wait _ => false | _ => true end.
